@@ -169,11 +169,27 @@ func specNext(st uint64, k int) (string, bool) {
 	return strings.Join(parts, ","), true
 }
 
+// specGlobal: router-wide random ids lie in [1, 2^53] — for the draw r the id must be r+1.
+func specGlobal(line, ans string) (bool, string) {
+	r, err := strconv.ParseUint(strings.TrimPrefix(line, "global "), 10, 64)
+	if err != nil {
+		return true, ""
+	}
+	id, err := strconv.ParseUint(ans, 10, 64)
+	if err != nil || id < 1 || id > maxID {
+		return false, "random ids must lie in [1, 2^53]"
+	}
+	if id != r+1 {
+		return false, fmt.Sprintf("the draws [0, 2^53) must map one-to-one onto [1, 2^53] (expected %d)", r+1)
+	}
+	return true, ""
+}
+
 func specCheck(line, impl string) (bool, string) {
 	f := strings.Split(line, " ")
 	want := ""
 	switch f[0] {
-	case "valid":
+	case "valid", "rule":
 		if len(f) != 4 {
 			return true, ""
 		}
